@@ -145,3 +145,43 @@ def compare_records(program, recs, st=None):
 def _short(v):
     s = repr(v)
     return s if len(s) < 300 else s[:300] + '...'
+
+
+BOUNDARY_BLOCKS = (96, 1024, 4096, 8192, 65536)
+
+
+def boundary_programs(block):
+    """Deterministic programs whose first content line ends (CR, LF) at
+    every offset around ``block`` bytes: for both line-ending kinds,
+    declared or detected, indented or not, in a single- and a multi-byte
+    codec, followed by a line that starts with a space or not."""
+    out = []
+
+    for off in (-2, -1, 0, 1):
+        for le, declared in (('unix', False), ('dos', False), ('dos', True),
+                             ('unix', True)):
+            for indent in (0, 4):
+                for nxt in (' lead', 'x'):
+                    for enc, unit in (('utf-8', 1), ('utf-16-le', 2)):
+                        n = (block + off) // unit
+                        nl = '\n' if le == 'unix' else '\r\n'
+                        text = 'L' * n + nl + nxt + nl + 'end'
+                        kw = {'text': text, 'indent': indent,
+                              'encoding': enc}
+                        dkw = {'content': text.encode(enc),
+                               'encoding': enc}
+
+                        if declared:
+                            kw['line_endings'] = le
+                            dkw['line_endings'] = le
+
+                        out.append({'encoding': 'utf-8', 'calls': [
+                            ['preamble', kw], ['change', {}],
+                            ['preamble', dict(kw, encoding=None) if False
+                             else {k: v for k, v in kw.items()
+                                   if k != 'encoding'}],
+                            ['file', {}],
+                            ['meta', {'metadata': {'t': 'L' * min(n, 300)}}],
+                            ['diff', dkw]]})
+
+    return out
